@@ -18,6 +18,8 @@ EXTRA = {  # additional checks expected to notice a change that was written agai
     'C14-f': ['C02'], 'C16-f': ['C20'], 'C18-e': ['C08'], 'C19-e': ['C11'],
     'C02-g': ['C12'], 'C07-g': ['C08'], 'C07-h': ['C08'], 'C18-h': ['C03'], 'C13-g': ['C20'], 'C12-h': ['C05'], 'C19-g': ['C08'],
     'C03-h': ['C02'], 'C12-g': ['C03'],
+    'C02-i': ['C03'], 'C01-i': ['C20'], 'C03-j': ['C02'], 'C04-j': ['C12'], 'C05-i': ['C02'], 'C05-j': ['C04'], 'C12-i': ['C11'],
+    'C15-j': ['C08'], 'C18-j': ['C01'],
 }
 
 
